@@ -528,6 +528,9 @@ def run(ctx):
             b["tid"] = len(bad) + 1
             bad.append(b)
     ctx.negative_controls("WorkdirTrace", "Trace.cfg", bad, name="stale row in results / own chunk file left / stale line in the input file")
+    ctx.phase("rollup_histories")
+    from drivers import rolltool
+    rolltool.run_family(ctx, "C09", 48 if ctx.quick else 1600, 16 if ctx.quick else 500)
     ctx.assume("fault points are the intercepted calls DataFrame.to_csv / to_parquet, ParquetWriter(), write_table, os.unlink, Path.unlink")
     ctx.assume("the CLI is stopped right after its verify step (read_pin replaced by a stub that raises in the driver process only)")
     return ctx.finish(
@@ -535,12 +538,19 @@ def run(ctx):
              "EVERY intercepted I/O call of the earlier run is a fault point, once as Fail (OSError) and once as Kill (forked child "
              "_exit), plus the earlier run completing; three-run histories with sampled fault points; the CLI verify step with stale "
              "'<pin>.tsv' files; protein-level runs (fresh directory, after an earlier protein-level run, without proteins after one "
-             "with); the model's prefix is rendered as a plain name or one holding glob metacharacters ([ ] * ?); "
+             "with); histories of the stand-alone rollup tool in one directory (RollupTool.tla: put / drop / roll, the tool's own earlier "
+             "files of either file root left behind) against the same roll over the input files alone; the model's prefix is rendered as a plain name or one holding glob metacharacters ([ ] * ?); "
              "distinct = distinct (history class, fault points)", exhaustive=not ctx.quick)
 
 
 def replay(ctx, case):
     c = case["case"]
+    if "rolltool_history" in c:
+        from drivers import rolltool
+        rolltool.replay_history(ctx, "C09", c["rolltool_history"])
+        ctx.count(1)
+        ctx.count(2)
+        return ctx.finish(rule="replay of one recorded rollup history")
     t = (run_scenario(c["scenario"]) if "scenario" in c else run_protein_scenario(c["proteins"]) if "proteins" in c
          else run_rollup_scenario(c["rolluptool"]) if "rolluptool" in c else run_cli(c["cli"]))
     t["tid"] = 1
